@@ -1218,6 +1218,8 @@ func (ro *RedisOutput) sendCmdsBatch(replayWait usync.WaitCloser, conn client.Re
 		maxRetries := 0
 		for {
 			if recvFailed.Load() {
+				// the receiver closes the run right after setting the flag : report the error it closes with
+				<-replayWait.Done()
 				if err := replayWait.Error(); err != nil {
 					return err
 				}
